@@ -635,40 +635,92 @@ func ruleR11_4(p *Program, r *Report) {
 		r.Undecided("R11.4", "anchors", "-", "type decompressor exists", "not found")
 		return
 	}
-	for _, fn := range p.Funcs() {
-		if fn.Signature.Recv() == nil || derefNamed(fn.Signature.Recv().Type()) != dn {
-			continue
+	isWP := func(x ssa.Instruction) bool {
+		st, ok := x.(*ssa.Store)
+		if !ok {
+			return false
 		}
-		lab := newLabeler()
-		for _, c := range allCalls(fn) {
-			g := c.Common().StaticCallee()
-			if g == nil || !p.InRepo(g) || g.Blocks == nil {
-				continue
+		_, sel := accessPath(st.Addr)
+		return sel == ".writePos"
+	}
+	var methods []*ssa.Function
+	for _, fn := range p.Funcs() {
+		if fn.Signature.Recv() != nil && derefNamed(fn.Signature.Recv().Type()) == dn {
+			methods = append(methods, fn)
+		}
+	}
+	publishes := map[*ssa.Function]bool{}
+	for _, fn := range methods {
+		for _, b := range fn.Blocks {
+			for _, in := range b.Instrs {
+				if isWP(in) {
+					publishes[fn] = true
+				}
 			}
-			intoHistory := false
-			for _, a := range c.Common().Args {
-				for _, leaf := range p.valueSources(a) {
-					if sl, ok := leaf.(*ssa.Slice); ok {
-						if _, sel := accessPath(sl.X); sel == ".historyBuffer" {
-							intoHistory = true
-						}
+		}
+	}
+	// a call decodes into the history buffer directly, or is a call to a helper method that does and leaves
+	// publishing to its caller (it has no store to .writePos itself)
+	decodes := map[*ssa.Function]bool{}
+	direct := func(c ssa.CallInstruction) bool {
+		g := c.Common().StaticCallee()
+		if g == nil || !p.InRepo(g) || g.Blocks == nil {
+			return false
+		}
+		for _, a := range c.Common().Args {
+			for _, leaf := range p.valueSources(a) {
+				if sl, ok := leaf.(*ssa.Slice); ok {
+					if _, sel := accessPath(sl.X); sel == ".historyBuffer" {
+						return true
 					}
 				}
 			}
-			if !intoHistory {
+		}
+		return false
+	}
+	isDecode := func(c ssa.CallInstruction) bool {
+		if direct(c) {
+			return true
+		}
+		g := c.Common().StaticCallee()
+		return g != nil && decodes[g] && !publishes[g]
+	}
+	for changed := true; changed; {
+		changed = false
+		for _, fn := range methods {
+			if decodes[fn] {
+				continue
+			}
+			for _, c := range allCalls(fn) {
+				if isDecode(c) {
+					decodes[fn] = true
+					changed = true
+					break
+				}
+			}
+		}
+	}
+	called := map[*ssa.Function]bool{}
+	for _, fn := range methods {
+		for _, c := range allCalls(fn) {
+			if g := c.Common().StaticCallee(); g != nil {
+				called[g] = true
+			}
+		}
+	}
+	for _, fn := range methods {
+		if !publishes[fn] && called[fn] {
+			continue // a helper: what it decodes is published by its caller, where the call counts as a decode call
+		}
+		lab := newLabeler()
+		for _, c := range allCalls(fn) {
+			if !isDecode(c) {
 				continue
 			}
 			key := shortFn(fn) + "|" + lab.get(calleeLabel(c))
 			found, hit, path := PathQuery{Start: c,
-				Target: func(x ssa.Instruction) bool { _, ok := x.(*ssa.Return); return ok },
-				Barrier: func(x ssa.Instruction) bool {
-					st, ok := x.(*ssa.Store)
-					if !ok {
-						return false
-					}
-					_, sel := accessPath(st.Addr)
-					return sel == ".writePos"
-				}}.Find(fn)
+				Target:  func(x ssa.Instruction) bool { _, ok := x.(*ssa.Return); return ok },
+				Barrier: isWP}.Find(fn)
 			why := ""
 			if found {
 				why = "the return at " + p.InstrPos(hit) + " is reachable (blocks " + fmtInts(path) + ") without storing .writePos: bytes already decoded by this call, or by an earlier block in the same step, are never handed out"
